@@ -138,12 +138,20 @@ func (c09) Generate(r *core.Rand, tier string, idx uint64) *core.Case {
 					ap.FromOp = cm // nonsense from: never matches
 				}
 			case 7: // misfiled: statement for another change X stored under this change's path
-				if prevCommit == 0 {
-					continue
-				}
 				ap.Misfile = true
-				ap.ToOp = prevCommit // X = (main, lastEntry, prev tree)
 				ap.StoreRef, ap.StoreFrom, ap.StoreTo = mainRef, lastEntry, cm
+				// X differs from this change in exactly one component
+				switch variant := r.Intn(3); {
+				case variant == 1:
+					ap.Ref = "refs/heads/x/main" // another reference whose name ends the same way
+				case variant == 2 && lastEntry != 0:
+					ap.FromOp = 0 // another prior state (the zero hash)
+				default:
+					if prevCommit == 0 {
+						continue
+					}
+					ap.ToOp = prevCommit // another resulting tree
+				}
 				if r.Chance(0.5) {
 					ap.App, ap.AppKey = appName, appKey
 					ap.Approvers = []string{fmt.Sprintf("user-%d", r.Range(1, 3)), fmt.Sprintf("user-%d", r.Range(1, 3))}
